@@ -69,6 +69,20 @@ def run(prog, rep):
     nops = 0
     okm = True
     for (hf, modn, keys) in sites:
+        # locals computed from the key count as the key (`key_int = P_POINTER_TO_INT (key); key_unsigned = (psize) key_signed;`)
+        keys = set(keys)
+        grew = True
+        while grew:
+            grew = False
+            for (b, i, n) in hf.nodes(elsewhere=True):
+                tgt = src = None
+                if n["k"] == "asg" and strip_casts(n["l"]) is not None and strip_casts(n["l"])["k"] == "ref":
+                    tgt, src = strip_casts(n["l"])["name"], n["r"]
+                elif n["k"] == "decl" and n.get("init") is not None:
+                    tgt, src = n["name"], n["init"]
+                if tgt is not None and tgt not in keys and any(x["k"] == "ref" and x["name"] in keys for x in walk(src)):
+                    keys.add(tgt)
+                    grew = True
         # every arithmetic operator below the modulo whose operands depend on the key
         stack_ = [modn]
         seen_local = set()
@@ -125,9 +139,12 @@ def run(prog, rep):
             if e["k"] == "member" and e["field"] == "size" and e.get("rec") == "PHashTable_":
                 return cnt if (size_pos and nw.pos_dominates(size_pos[0], at)) else None
             if e["k"] == "ref" and e.get("decl") == "local":
-                o = nw.origins(e)
-                vs = set(bytes_of(x, at) for x in o) if o else {None}
-                return vs.pop() if len(vs) == 1 else None
+                r_ = nw.resolve(e)
+                if r_ is e or r_ is None:
+                    return None
+                # the single definition of the local: evaluated where it is computed
+                at2 = [(b.id, i) for (b, i, n) in nw.nodes(elsewhere=True) if n is r_ or any(m is r_ for m in walk(n) if n["k"] in ("asg", "decl"))]
+                return bytes_of(r_, at2[0] if at2 else at)
             return None
         alpos = dict((id(c), (b.id, i)) for (b, i, c) in nw.calls())
         oks = any(c.get("callee") == "p_malloc0" and bytes_of(c["args"][0], alpos[id(c)]) == cnt * ptrsz for c in al)
@@ -141,6 +158,19 @@ def run(prog, rep):
                 okm2 = a1 is not None and a1["k"] == "member" and a1["field"] == "size"
                 rep.ob("C15.2", fn, "modulus", okm2, "the bucket is computed modulo table->size" if okm2 else
                        "the bucket is computed modulo %s, not table->size: the index can exceed the bucket array or disagree with other operations" % show(c["args"][1]), c)
+    for (hf, modn, keys) in sites:
+        if field_of(modn["r"]) == "size":
+            rep.ob("C15.2", hf, "modulus", True, "the bucket is computed modulo table->size (in place)", modn)
+    # the three chain operations: their subscripts are decided symbolically by C15.6 (hash of the key modulo table->size,
+    # through helpers and out-parameters); the syntactic provenance below covers the functions that walk all buckets
+    chain_fns = set()
+    work_ = ["p_hash_table_insert", "p_hash_table_lookup", "p_hash_table_remove"]
+    while work_:
+        x_ = work_.pop()
+        if x_ in chain_fns or x_ not in u.functions:
+            continue
+        chain_fns.add(x_)
+        work_.extend(c.get("callee") for (b, i, c) in u.functions[x_].calls() if c.get("callee") in u.functions and u.functions[c["callee"]].static)
     for fn in u.functions.values():
         subs = []
         for b, i, s in fn.stmts():
@@ -177,10 +207,14 @@ def run(prog, rep):
         for (b, i, n) in subs:
             iv = strip_casts(n["i"])
             nsub += 1
+            if (iv is None or iv["k"] != "ref") and fn.name in chain_fns:
+                continue        # decided by C15.6
             if iv is None or iv["k"] != "ref":
                 okp, msg = False, "line %d: bucket index %s is not a plain variable" % (line(n), show(n["i"]))
             elif iv["name"] in hashed or iv["name"] in bounded:
                 continue
+            elif fn.name in chain_fns:
+                continue        # decided by C15.6
             elif iv["name"] in params and fn.static:
                 # static helper: every caller must pass a hashed value
                 for g in u.functions.values():
